@@ -4,11 +4,11 @@
     out to the sinks; [run_reports] is the sequence of reports of one call()/execute();
     [wf_stream a l] says: l is zero or more `retry` reports with attempts a, a+1, ... followed by
     exactly one report that is not `retry`.
-    Proved here for the metric hook and the log hook; that the captured timeline holds the same
-    sequence, and the breaker events of Policy (attempt 0, breaker state), are tied by the
-    correspondence run and the oracle only (the model computes the timeline, see Runner.emit). *)
+    Proved for the metric hook, the log hook and the captured timeline (its elapsed_s stamps are
+    compared by the correspondence run only); the breaker events of Policy (attempt 0, breaker state)
+    are tied by the correspondence run and the oracle only. *)
 From Redress Require Import Base Window Budget Runner Corr RunnerProofs RunnerSpec RunnerC01 RunnerC03 RunnerFull RunnerLoop
-  RunnerVerdict RunnerC02 RunnerC13 RunnerC14.
+  RunnerVerdict RunnerC02 RunnerC13 RunnerC14 RunnerTimeline.
 
 (** What the two hooks receive is exactly the run's report sequence ... *)
 Theorem C14_metric_sink : forall m c e start b,
@@ -27,6 +27,19 @@ Theorem C14_sinks_equal : forall m c e start b,
   filtermap metric_core (run_trace m c e start b) = filtermap log_core (run_trace m c e start b).
 Proof. exact sinks_equal. Qed.
 Print Assumptions C14_sinks_equal.
+
+(** The captured timeline holds the same sequence (entry = attempt, event, sleep_s, class, stop_reason,
+    cause), and it is what the RetryOutcome carries. *)
+Theorem C14_timeline : forall c e start b,
+  capture_tl c = true ->
+  map tlc (tl (run_final MExec c e start b)) = map rep_tlc (run_reports MExec c e start b).
+Proof. exact timeline_is_reports. Qed.
+Print Assumptions C14_timeline.
+
+Theorem C14_outcome_timeline : forall c s fn o,
+  deliver MExec c s fn = DOutcome o -> o_tl o = if capture_tl c then Some (tl s) else None.
+Proof. exact outcome_timeline. Qed.
+Print Assumptions C14_outcome_timeline.
 
 (** The observability events of a run are exactly the fan-out of its reports, in order. *)
 Theorem C14_obs_events : forall m c e start b,
